@@ -20,6 +20,7 @@ POOLS = [
 def universes(tier):
     """name -> list of specs.  Deterministic; independent of VERIF_SEED."""
     u = {}
+    u["hubs"] = list(U.hubs(tier)) + list(U.large(tier))     # (first: its items are the slowest, they should start early)
     mg = list(U.MG_reps(4, ("C", "H", "O")))
     u["MG"] = mg
     small = [g for g in mg if len(g.atoms) <= 3]
@@ -33,7 +34,6 @@ def universes(tier):
     u["symmetric"] = [g for _, g in U.symmetric()]
     u["stars-as-SCRG"] = [U.to_kind(g, SCRG) for g in U.stars(4)][::2]
     u["stars-extra"] = list(U.stars_extra())
-    u["hubs"] = list(U.hubs(tier))
     u["symmetric-reactions"] = [g for _, g in U.symmetric_reactions()][::5]
     if tier == "thorough":
         u["MG5"] = list(U.MG5_reps())
@@ -41,15 +41,17 @@ def universes(tier):
     return u
 
 
-def _perm_family(ids, full_upto):
+def _perm_family(ids, full_upto, few=False):
     n = len(ids)
     if n <= full_upto:
         return [p for p in itertools.permutations(ids)]
     fam = []
-    for k in range(n):
+    small = n <= 24 and not few
+    for k in (range(n) if small else (0, 1, 7 % n, n // 3, n // 2, n - 1)):
         fam.append(tuple(ids[k:] + ids[:k]))
     fam.append(tuple(reversed(ids)))
-    for i, j in itertools.combinations(range(n), 2):
+    big = [(0, 1), (0, n - 1), (1, n // 2), (n // 3, n // 3 + 1), (n // 2, n - 2), (2, n - 3)]
+    for i, j in (itertools.combinations(range(n), 2) if small else big):
         p = list(ids)
         p[i], p[j] = p[j], p[i]
         fam.append(tuple(p))
@@ -135,7 +137,9 @@ def variants(m, tier, seed):
     ids = list(m.atoms)
     n = len(ids)
     full = 4 if tier == "quick" else 5
-    for p in _perm_family(ids, full):
+    # (graphs with a 7+-coordinate atom cost ~0.1 s per comparison: a reduced family of renamings for them)
+    costly = any(len(m.nbrs(a)) >= 7 for a in ids)
+    for p in _perm_family(ids, full, few=costly):
         if list(p) == ids:
             continue
         yield "rename-perm", m.copy().relabel(dict(zip(ids, p))), {}
